@@ -42,6 +42,19 @@ CLAIMED = {
              'correctness is C08/C10); how attachment conditions/blocks quantify over parts (expr.c) is not yet in the model - a change there '
              '(seeded change C11-m2) is not detected by this check yet.',
         technique='Lean 4 proof of model = line-based MIME specification + differential execution model/implementation'),
+    'C12': dict(
+        text='Machine-checked: for EVERY match list, macro table and template of the documented syntax the Lean transcription of '
+             'interpolate/isbackref(strtoul)/ismacro computes exactly the one-pass token substitution Spec.interp - the concatenation of the '
+             'substitutions, so substituted text is never scanned again - including which templates are errors (C12_interpolate); a '
+             'back-reference resolves to the N-th capture of the M-th pattern of the SAME rule or is an error (C12_backref_lookup); whether a '
+             'label action can be interpolated does not depend on message content (C12_label_ignores_message). Tied to the working tree by '
+             'running the real parser + expr_eval + matches_interpolate on generated rules/messages whose texts look like templates: exact '
+             'comparison with the model, and every interpolated move destination / exec argument / label judged by Spec.interp on the captures '
+             'the implementation itself recorded.',
+        note='Trusted: Lean kernel, Spec/Interp.lean, generators, platform regexec. Templates with `\\N.` not followed by a digit are outside '
+             'the specification (strtoul quirk, recorded in DESIGN.md). Parse-time macro expansion (expandmacros, -D) is not modelled yet. Known '
+             'finding F20: `move "...\\1" flag new` leaves the template uninterpolated (listed under C09).',
+        technique='Lean 4 proof (C loop = token-wise substitution) + differential execution + spec evaluated on real captures'),
     'C16': dict(
         text='Machine-checked: the Lean transcription of b64_pton/base64_decode, quoted_printable_decode(_buffer) and rfc2047_decode '
              'equals independent reference decoders (RFC 4648 / QP / RFC 2047) for EVERY byte string (theorems C16_b64, C16_b64_len, '
@@ -64,7 +77,6 @@ NOT_YET = {
     'C06': 'check under construction',
     'C07': 'check under construction',
     'C09': 'check under construction',
-    'C12': 'check under construction',
     'C13': 'check under construction',
     'C14': 'check under construction',
     'C15': 'check under construction',
